@@ -97,6 +97,13 @@ def spread_scale(kind, flatvals, default):
 def gen_values(rng, n, shape, family):
     if family == 'offset':
         OFFSET[0] = rng.choice([1e9, -3e8, float(2 ** 40), 12345678.0])
+    if family == 'pyfirst':
+        # a plain Python number first (weakly typed for numpy), narrower numpy floats afterwards: the extreme is one of the observations, exactly
+        vals = [rng.choice([1.1, 0.1, -0.3, 1e300, -1e300, 16777217, -16777217, 123456789.123])]
+        for _ in range(n - 1):
+            vals.append(rng.choice([{'arr': rng.choice([1.5, 2.0, 3.0, -2.5, 0.25, -1.0]), 'dtype': rng.choice(['float32', 'float16'])},
+                                    rng.choice([0.7, -0.7, 5, -5])]))
+        return vals
     if family == 'narrowint':
         return gen_narrow(rng, n, shape)
     if family == 'mixedwidth':
@@ -317,10 +324,12 @@ def check(ctx):
         shape = rng.choice(SHAPES)
         if kind == 'cov' and int(np.prod(shape)) > 4:
             shape = (2,)
-        family = rng.choice(['int', 'dyadic', 'tied', 'mixed', 'big', 'narrowint'] + (['mixedwidth'] * 3 if kind in ('min', 'max') else [])
+        family = rng.choice(['int', 'dyadic', 'tied', 'mixed', 'big', 'narrowint'] + (['mixedwidth'] * 3 + ['pyfirst'] * 2 if kind in ('min', 'max') else [])
                             + (['nearmax'] if kind in ('min', 'max', 'mean', 'counter') else []) + ['offset']
                             + (['sqrtmax'] if kind in ('var', 'cov', 'mean') else []))
         n = rng.choice([1, 2, 3, 4, 5, 8, 13, 30] if ctx.quick else [1, 2, 3, 5, 8, 13, 30, 60, 150])
+        if family == 'pyfirst':
+            shape = ()
         cases.append((kind, gen_values(rng, n, shape, family), family))
     lines, spans, progs = [], [], []
     hops = []
